@@ -88,7 +88,7 @@ def call(entry, payload, ver):
     raise AssertionError(entry)
 
 
-def judge(entry, payload_desc, res, exc, elapsed_note=None):
+def judge(entry, payload_desc, res, exc, elapsed_note=None, site=None):
     from stix2.exceptions import STIXError
     if exc is None:
         return []
@@ -98,7 +98,7 @@ def judge(entry, payload_desc, res, exc, elapsed_note=None):
     name = type(exc).__name__
     feature = ""
     if isinstance(exc, RecursionError):
-        frame = "deep-nesting"
+        frame = "deep-nesting" + (":" + site if site else "")
     if isinstance(exc, AssertionError) and "store changed" in str(exc):
         return [("store-changed-by-failed-add", payload_desc)]
     return [("escaped:%s@%s" % (name, frame), "%s raised %s for %s" % (entry, core.fmt_exc(exc), payload_desc))]
@@ -115,10 +115,19 @@ def check_case(case):
                 payload = inner
             else:
                 base = json.dumps(case["doc"])
-                payload = base[:-1] + ', "%s": %s}' % (where, inner)
+                if where.startswith("ext-content"):
+                    inner = '{"extension-definition--3f2504e0-4f89-41d3-9a0c-0305e82c3301": {"extension_type": "property-extension", "deep": %s}}' % inner
+                    payload = base[:-1] + ', "extensions": %s}' % inner
+                else:
+                    payload = base[:-1] + ', "%s": %s}' % (where, inner)
         else:
             junk = make_junk({"$nest": n, "kind": kind})
-            payload = junk if where == "document" else dict(case["doc"], **{where: junk})
+            if where == "document":
+                payload = junk
+            elif where.startswith("ext-content"):
+                payload = dict(case["doc"], extensions={"extension-definition--3f2504e0-4f89-41d3-9a0c-0305e82c3301": {"extension_type": "property-extension", "deep": junk}})
+            else:
+                payload = dict(case["doc"], **{where: junk})
         desc = "nesting depth %d (%s) at %s as %s" % (n, kind, where, "text" if as_text else "dict")
         before = registry_snapshot()
         import stix2
@@ -126,7 +135,10 @@ def check_case(case):
             res, exc = with_watchdog(lambda: core.guarded(stix2.parse, payload, allow_custom=case["nest"]["allow_custom"]))
         except _Timeout:
             return [("no-termination-within-60s", desc)]
-        fails = judge("parse", desc, res, exc)
+        # where the recursion limit is hit decides the root cause: json.loads on any deeply nested text, the document itself
+        # being a deeply nested non-object, or (not on the pinned tree) a property value that slipped past cleaning
+        site = "json-text" if as_text else "document" if where == "document" else "property:" + where
+        fails = judge("parse", desc, res, exc, site=site)
         if registry_snapshot() != before:
             fails.append(("registry-changed", desc))
         return fails
@@ -161,7 +173,9 @@ def check_case(case):
 # ---- strategies -------------------------------------------------------------------------------------------------
 JUNK_VALUES = [None, True, False, 0, -1, 1.5, "", "x", [], [None], [[1]], {}, {"a": None}, {"a": {"b": []}}, [{}], "5", "null", [1, "a", None],
                {"type": "x"}, {"type": 5}, [{"type": "identity"}], {"$nest": 50, "kind": "list"}, {"$nest": 50, "kind": "dict"}, 10 ** 400, -0.0, "\x00",
-               "퟿", {"": 1}, {"extensions": 5}, [[]], "2020-01-01T00:00:00Z", "identity--00000000-0000-4000-8000-000000000000"]
+               "퟿", {"": 1}, {"extensions": 5}, [[]], "2020-01-01T00:00:00Z", "identity--00000000-0000-4000-8000-000000000000",
+               # strings that mean something to code which inspects raw input before cleaning
+               "toplevel-property-extension", "new-sdo", "property-extension", "bundle", "marking-definition", "2.0", "2.1", "extension-definition--x"]
 junk_leaf = st.one_of(st.none(), st.booleans(), st.integers(-10, 10), st.floats(allow_nan=False, allow_infinity=False, width=32), st.text(max_size=5),
                       st.sampled_from(["type", "id", "identity", "bundle", "2.1", "2.0", "extensions", "objects"]))
 junk_json = st.recursive(junk_leaf, lambda ch: st.one_of(st.lists(ch, max_size=3), st.dictionaries(
@@ -204,6 +218,8 @@ def run(ctx):
             # raw members of extensions / container (values inspected before cleaning)
             for key in (doc.get("extensions") or {}):
                 slots.append((("extensions", key), None))
+                if isinstance(doc["extensions"][key], dict):
+                    slots.append((("extensions", key, "extension_type"), None))     # added or replaced: read before cleaning
             for key in (doc.get("objects") or {}) if isinstance(doc.get("objects"), dict) else []:
                 slots.append((("objects", key), None))
                 slots.append((("objects", key, "type"), None))
@@ -216,6 +232,8 @@ def run(ctx):
             if doc["type"] in m.observables and (seed_i + k) % 5 == 0:
                 entry = "parse_observable"
             c = {"path": list(p), "op": "set" if not (len(p) == 1 and p[0] not in doc) else "add", "kind": "junk:%d" % j, "value": JUNK_VALUES[j]}
+            if len(p) == 3 and p[0] == "extensions" and p[2] == "extension_type":
+                c["op"] = "add"
             case = {"ver": ver, "doc": doc, "corruptions": [c], "entry": entry}
             fails = check_case(case)
             if fails is None:
@@ -236,6 +254,28 @@ def run(ctx):
             doc = draw(G.bundle(ver, opts, min_members=1, max_members=2)) if t == "bundle" else draw(G.valid_object(ver, type_=t, opts=opts))
             return ver, doc, draw(st.integers(0, 10 ** 4))
         core.run_given(ctx, strat(), body, per_type, label="c17-%s-%s" % ver_t, rounds=3)
+
+    # documents of an UNREGISTERED type: dict_to_stix2 inspects their raw `extensions` (new-SDO style extension definitions)
+    # before any cleaning.  Finite: slots x junk values x entries enumerated completely.
+    ctx.collect_only = True
+    ext_key = "extension-definition--3f2504e0-4f89-41d3-9a0c-0305e82c3301"
+    for ver in ("2.0", "2.1"):
+        for ext_type in ("new-sdo", "property-extension", "toplevel-property-extension"):
+            udoc = {"type": "x-never-registered", "id": "x-never-registered--3f2504e0-4f89-41d3-9a0c-0305e82c3301", "created": "2020-01-01T00:00:00.000Z",
+                    "modified": "2020-01-01T00:00:00.000Z", "name": "n", "extensions": {ext_key: {"extension_type": ext_type, "rank": 1}}}
+            if ver == "2.1":
+                udoc["spec_version"] = "2.1"
+            for p in (("extensions",), ("extensions", ext_key), ("extensions", ext_key, "extension_type"), ("extensions", ext_key, "rank"), ("type",), ("id",), ("spec_version",)):
+                for j, junk in enumerate(JUNK_VALUES):
+                    for entry in ("parse", "parse-custom", "parse-version", "parse-text", "memory-add"):
+                        c = {"path": list(p), "op": "set" if p[0] in udoc else "add", "kind": "junk:%d" % j, "value": junk}
+                        case = {"ver": ver, "doc": udoc, "corruptions": [c], "entry": entry}
+                        fails = check_case(case)
+                        if fails is None:
+                            continue
+                        ctx.note(case, True, ["unregistered-type", "entry:" + entry], fp=core.fingerprint([ver, ext_type, p, j, entry]))
+                        ctx.handle(case, fails)
+    ctx.collect_only = False
 
     # multi-point junk
     def body_multi(args):
@@ -280,14 +320,25 @@ def run(ctx):
     ctx.collect_only = True
     base = {"type": "identity", "spec_version": "2.1", "id": "identity--3f2504e0-4f89-41d3-9a0c-0305e82c3301", "created": "2020-01-01T00:00:00.000Z",
             "modified": "2020-01-01T00:00:00.000Z", "name": "n"}
-    for depth in (10, 100, 1000, 5000):
+    hosts = {
+        "identity": base,
+        # id-less 2.1 observables whose id is derived from `extensions`: content that slips past cleaning reaches id generation
+        "file-no-id": {"type": "file", "spec_version": "2.1", "name": "f"},
+        "network-traffic-no-id": {"type": "network-traffic", "spec_version": "2.1", "protocols": ["tcp"], "src_ref": "ipv4-addr--3f2504e0-4f89-41d3-9a0c-0305e82c3301"},
+        "file-with-id": {"type": "file", "spec_version": "2.1", "id": "file--3f2504e0-4f89-41d3-9a0c-0305e82c3301", "name": "f"},
+    }
+    for depth in (10, 100, 1000, 1500, 5000, 20000):
         for kind in ("list", "dict"):
-            for where in ("document", "labels", "extensions", "x_custom"):
+            for host, where in (("identity", "document"), ("identity", "labels"), ("identity", "extensions"), ("identity", "x_custom"), ("identity", "ext-content"),
+                                ("file-no-id", "ext-content"), ("network-traffic-no-id", "ext-content"), ("file-with-id", "ext-content"), ("file-no-id", "hashes"),
+                                ("network-traffic-no-id", "ipfix")):
                 for as_text in (False, True):
                     for allow in (False, True):
-                        case = {"nest": {"depth": depth, "kind": kind, "where": where, "text": as_text, "allow_custom": allow}, "doc": base, "entry": "parse"}
+                        if depth == 20000 and as_text:
+                            continue
+                        case = {"nest": {"depth": depth, "kind": kind, "where": where, "text": as_text, "allow_custom": allow}, "doc": hosts[host], "entry": "parse"}
                         fails = check_case(case)
-                        ctx.note(case, True, ["nesting:%d" % depth, "nest-input:" + ("text" if as_text else "dict")])
+                        ctx.note(case, True, ["nesting:%d" % depth, "nest-input:" + ("text" if as_text else "dict"), "nest-site:%s/%s" % (host, where)])
                         ctx.handle(case, fails or [])
     ctx.collect_only = False
 
